@@ -50,7 +50,7 @@ func genFrameCases(c *Ctx) []frameCase {
 	labels := []string{"main", "side", "x"}
 	var cases []frameCase
 	next := 0
-	for i := 0; i < c.N(90, 3000); i++ {
+	for i := 0; i < c.N(90, 2000); i++ {
 		var evs []frameEvent
 		n := r.Intn(7)
 		for j := 0; j < n; j++ {
